@@ -7,9 +7,17 @@ package main
 // tokens are verified against the keys the JWKS handler publishes and fed to the real userinfo handler.
 
 import (
+	"crypto"
+	"crypto/ecdsa"
+	"crypto/ed25519"
+	"crypto/elliptic"
+	"crypto/rand"
+	"crypto/rsa"
 	"crypto/sha256"
+	"crypto/x509"
 	"encoding/hex"
 	"encoding/json"
+	"encoding/pem"
 	"fmt"
 	"net/http"
 	"net/http/httptest"
@@ -145,7 +153,7 @@ func (e *vf4Env) vf12JWKSVerifies(toks ...string) bool {
 		return false
 	}
 	for _, tk := range toks {
-		parsed, err := jwt.ParseSigned(tk, []jose.SignatureAlgorithm{jose.RS256, jose.ES256, jose.ES384, jose.EdDSA})
+		parsed, err := jwt.ParseSigned(tk, []jose.SignatureAlgorithm{jose.RS256, jose.ES256, jose.ES384, jose.ES512, jose.EdDSA})
 		if err != nil || len(parsed.Headers) != 1 {
 			return false
 		}
@@ -365,6 +373,221 @@ func (e *vf4Env) vf12Az(f []string) (string, error) {
 	return fmt.Sprintf("az 302 code tauth=%d state=%s locbase=%s || %s", tauth, vfHex(loc.Query().Get("state")), vfHex(locBase), out), nil
 }
 
+// ---------------------------------------------------------------- signer kinds and the published JWKS
+
+func vf12KeyKind(pub crypto.PublicKey) string {
+	switch k := pub.(type) {
+	case *rsa.PublicKey:
+		return "rsa"
+	case *ecdsa.PublicKey:
+		switch k.Curve {
+		case elliptic.P256():
+			return "p256"
+		case elliptic.P384():
+			return "p384"
+		case elliptic.P521():
+			return "p521"
+		}
+		return "unsupported"
+	case ed25519.PublicKey:
+		return "ed25519"
+	}
+	return "unsupported"
+}
+
+func vf12SignerPEM(kind, form string) ([]byte, error) {
+	var key interface{}
+	var err error
+	switch kind {
+	case "rsa":
+		return []byte(testSignerPrivateKey), nil
+	case "rsa3072":
+		key, err = rsa.GenerateKey(rand.Reader, 3072)
+	case "p256":
+		key, err = ecdsa.GenerateKey(elliptic.P256(), rand.Reader)
+	case "p384":
+		key, err = ecdsa.GenerateKey(elliptic.P384(), rand.Reader)
+	case "p521":
+		key, err = ecdsa.GenerateKey(elliptic.P521(), rand.Reader)
+	default:
+		return nil, fmt.Errorf("unknown signer kind %q", kind)
+	}
+	if err != nil {
+		return nil, err
+	}
+	if ec, ok := key.(*ecdsa.PrivateKey); ok && form == "sec1" {
+		der, err := x509.MarshalECPrivateKey(ec)
+		if err != nil {
+			return nil, err
+		}
+		return pem.EncodeToMemory(&pem.Block{Type: "EC PRIVATE KEY", Bytes: der}), nil
+	}
+	der, err := x509.MarshalPKCS8PrivateKey(key)
+	if err != nil {
+		return nil, err
+	}
+	return pem.EncodeToMemory(&pem.Block{Type: "PRIVATE KEY", Bytes: der}), nil
+}
+
+// vf12Jw: a deployment whose signer is of the given kind — loaded through the real
+// loadSignersFromPemData, published through the real signerPublicKeyToKeymasterKeys — runs one
+// complete confidential-client flow; the released tokens are verified the way a relying party
+// does it: fetch the JWKS from the real handler, take the key(s) named by the token's kid (all
+// keys when none carries it), verify.
+//
+//	jw <signer kind> <with Ed25519 ssh-CA signer 0|1> <with a trusted peer keymaster key 0|1> <sec1|pkcs8>
+//
+// output: `jw <class> signer= alg= kid=<n> trusted=<id:type,…> published=<id:type,…> idv= accv= || <redeem output>`
+func vf12Jw(t *testing.T, f []string) (string, error) {
+	state, cleanup := vfNewState(t)
+	defer cleanup()
+	state.HostIdentity = "keymaster.example.com"
+	state.Config.Base.HttpAddress = ":443"
+	state.Config.Base.AllowedAuthBackendsForWebUI = []string{"password"}
+	state.Config.OpenIDConnectIDP.Client = []OpenIDConnectClientConfig{
+		{ClientID: vf12S1, ClientSecret: vf12S1Secret, AllowedRedirectDomains: []string{"localhost"}},
+	}
+	signerPEM, err := vf12SignerPEM(f[1], f[4])
+	if err != nil {
+		return "", err
+	}
+	var edPEM []byte
+	if f[2] == "1" {
+		_, edk, err := ed25519.GenerateKey(rand.Reader)
+		if err != nil {
+			return "", err
+		}
+		der, err := x509.MarshalPKCS8PrivateKey(edk)
+		if err != nil {
+			return "", err
+		}
+		edPEM = pem.EncodeToMemory(&pem.Block{Type: "PRIVATE KEY", Bytes: der})
+	}
+	// the daemon's own start-up path
+	state.Signer, state.Ed25519Signer, state.KeymasterPublicKeys = nil, nil, nil
+	if err := state.loadSignersFromPemData(signerPEM, edPEM); err != nil {
+		return "jw refused-signer " + vfHex(err.Error()), nil
+	}
+	if f[3] == "1" { // another keymaster of the same deployment (configured public key)
+		peer, err := ecdsa.GenerateKey(elliptic.P256(), rand.Reader)
+		if err != nil {
+			return "", err
+		}
+		state.KeymasterPublicKeys = append(state.KeymasterPublicKeys, peer.Public())
+	}
+	if err := state.signerPublicKeyToKeymasterKeys(); err != nil {
+		return "", err
+	}
+	e := &vf4Env{t: t, state: state}
+	ids := map[string]int{}
+	describe := func(keys []crypto.PublicKey) string {
+		var out []string
+		for _, k := range keys {
+			fp, err := getKeyFingerprint(k)
+			if err != nil {
+				fp = fmt.Sprintf("nofp%d", len(ids))
+			}
+			if _, ok := ids[fp]; !ok {
+				ids[fp] = len(ids) + 1
+			}
+			out = append(out, fmt.Sprintf("%d:%s", ids[fp], vf12KeyKind(k)))
+		}
+		if len(out) == 0 {
+			return "-"
+		}
+		return strings.Join(out, ",")
+	}
+	trusted := describe(state.KeymasterPublicKeys)
+	signerFP, _ := getKeyFingerprint(state.Signer.Public())
+	code, err := e.vf12AuthzCode(vf12S1, "", "")
+	if err != nil {
+		return "jw no-code " + vfHex(err.Error()) + " signer=" + vf12KeyKind(state.Signer.Public()) + " trusted=" + trusted, nil
+	}
+	payload, _ := vf4Payload(code)
+	out, err := e.vf12Redeem(code, payload, fmt.Sprint(ids[signerFP]), "-", vf12S1, vf12S1Secret, "", vf12Redirect, "header")
+	if err != nil {
+		return "", err
+	}
+	// the JWKS as published
+	rr, p := vfServe(state.idpOpenIDCJWKSHandler, httptest.NewRequest("GET", idpOpenIDCJWKSPath, nil))
+	if p != nil || rr.Code != 200 {
+		return fmt.Sprintf("jw jwks-status%d signer=%s trusted=%s || %s", rr.Code, vf12KeyKind(state.Signer.Public()), trusted, out), nil
+	}
+	var set jose.JSONWebKeySet
+	if err := json.Unmarshal(rr.Body.Bytes(), &set); err != nil {
+		return fmt.Sprintf("jw jwks-unparsable signer=%s trusted=%s || %s", vf12KeyKind(state.Signer.Public()), trusted, out), nil
+	}
+	var pubs []crypto.PublicKey
+	for _, k := range set.Keys {
+		pubs = append(pubs, k.Key)
+	}
+	published := describe(pubs)
+	kv := map[string]string{}
+	for _, x := range strings.Fields(out) {
+		if i := strings.Index(x, "="); i > 0 {
+			kv[x[:i]] = x[i+1:]
+		}
+	}
+	rpVerify := func(tok string) (string, string, int) {
+		parsed, err := jwt.ParseSigned(tok, []jose.SignatureAlgorithm{jose.RS256, jose.RS384, jose.RS512, jose.PS256,
+			jose.ES256, jose.ES384, jose.ES512, jose.EdDSA})
+		if err != nil || len(parsed.Headers) != 1 {
+			return "0", "unparsable", 0
+		}
+		cands := set.Key(parsed.Headers[0].KeyID)
+		if len(cands) == 0 {
+			cands = set.Keys
+		}
+		for _, k := range cands {
+			var o map[string]interface{}
+			if parsed.Claims(k.Key, &o) == nil {
+				return "1", parsed.Headers[0].Algorithm, ids[parsed.Headers[0].KeyID]
+			}
+		}
+		return "0", parsed.Headers[0].Algorithm, ids[parsed.Headers[0].KeyID]
+	}
+	class := "not-released"
+	extra := ""
+	if strings.HasPrefix(out, "200 ") {
+		class = "released"
+		// the raw tokens are not in `out`; redeem again is unnecessary: vf12Redeem verified them against the same
+		// handler (jwks=); here the relying-party view with kid fallback is recomputed from a second redemption
+		code2, err := e.vf12AuthzCode(vf12S1, "", "")
+		if err != nil {
+			return "", err
+		}
+		idt, acc, err := e.vf12RawTokens(code2)
+		if err != nil {
+			return "", err
+		}
+		idv, alg, kid := rpVerify(idt)
+		accv, _, _ := rpVerify(acc)
+		extra = fmt.Sprintf(" alg=%s kid=%d idv=%s accv=%s", alg, kid, idv, accv)
+	}
+	return fmt.Sprintf("jw %s signer=%d:%s trusted=%s published=%s%s || %s", class, ids[signerFP], vf12KeyKind(state.Signer.Public()),
+		trusted, published, extra, out), nil
+}
+
+// vf12RawTokens redeems a code of the confidential client and returns the compact ID and access tokens.
+func (e *vf4Env) vf12RawTokens(code string) (string, string, error) {
+	form := url.Values{}
+	form.Set("grant_type", "authorization_code")
+	form.Set("redirect_uri", vf12Redirect)
+	form.Set("code", code)
+	r := httptest.NewRequest("POST", idpOpenIDCTokenPath, strings.NewReader(form.Encode()))
+	r.Header.Set("Content-Type", "application/x-www-form-urlencoded")
+	r.SetBasicAuth(vf12S1, vf12S1Secret)
+	rr, p := vfServe(e.state.idpOpenIDCTokenHandler, r)
+	if p != nil || rr.Code != 200 {
+		return "", "", fmt.Errorf("token endpoint: status %d panic %v", rr.Code, p)
+	}
+	var resp tokenResponse
+	if err := json.Unmarshal(rr.Body.Bytes(), &resp); err != nil {
+		return "", "", err
+	}
+	return resp.IDToken, resp.AccessToken, nil
+}
+
 // TestVerifC12
 //
 //	tok <codeClient> <present> <secret> <verifier> <method> <redirect> <codeState> <place> <via>
@@ -387,6 +610,15 @@ func TestVerifC12(t *testing.T) {
 	e.setDeployment("single")
 	for _, line := range io.ops {
 		f := strings.Fields(line)
+		if len(f) == 5 && f[0] == "jw" {
+			out, err := vf12Jw(t, f)
+			if err != nil {
+				io.emit("harness-error %v", err)
+			} else {
+				io.emit("%s", out)
+			}
+			continue
+		}
 		if len(f) == 9 && f[0] == "az" {
 			out, err := e.vf12Az(f)
 			if err != nil {
